@@ -129,6 +129,7 @@ func (v *verifLB) opMallocR(lo, hi int) {
 		return
 	}
 	verifAssert(len(buf) == n, "C01/malloc-len")
+	verifFill(buf)
 	verifRopeAppend(v.pend, buf)
 	v.pendN += n
 }
@@ -478,6 +479,7 @@ func (v *verifLB) opBookAck() {
 	n := verifNondetInt("bookack.n")
 	verifAssume(n >= 0)
 	verifAssume(n <= len(p))
+	verifFill(p[:n])
 	length, err := v.b.bookAck(n)
 	verifAssert(err == nil, "C01/bookack-err")
 	verifRopeAppend(v.segs, p[:n])
